@@ -131,9 +131,19 @@ fn check(sink: &Arc<Mutex<Vec<SpanRecord>>>, c: &Case, uniq: &mut u64) -> Vec<Vi
         out.push(Viol { sig: "poll-count".into(), msg: format!("{}: annotated needed {} polls, plain {}", who, ann.out.polls, plain.out.polls) });
     }
     // --- records
-    let ours: Vec<&SpanRecord> = ann.records.iter().filter(|r| r.name != ann.root_name && r.name != ann.local_name && r.name != rt::ELSEWHERE).collect();
+    // spans recorded by the instrumented Debug impl of an argument while a property is formatted:
+    // not the function's spans, and nothing of the function may end up on them
+    for r in ann.records.iter().filter(|r| r.name == rt::DBG_SPAN) {
+        if !r.properties.is_empty() {
+            out.push(Viol {
+                sig: "properties-on-nested-record".into(),
+                msg: format!("{}: the span recorded while an argument was formatted carries properties {:?}", who, r.properties.iter().map(|(k, v)| (k.to_string(), v.to_string())).collect::<Vec<_>>()),
+            });
+        }
+    }
+    let ours: Vec<&SpanRecord> = ann.records.iter().filter(|r| r.name != ann.root_name && r.name != ann.local_name && r.name != rt::ELSEWHERE && r.name != rt::DBG_SPAN).collect();
     // the plain twin records nothing by itself
-    let plain_ours: Vec<&SpanRecord> = plain.records.iter().filter(|r| r.name != plain.root_name && r.name != plain.local_name && r.name != rt::ELSEWHERE).collect();
+    let plain_ours: Vec<&SpanRecord> = plain.records.iter().filter(|r| r.name != plain.root_name && r.name != plain.local_name && r.name != rt::ELSEWHERE && r.name != rt::DBG_SPAN).collect();
     if !plain_ours.is_empty() {
         out.push(Viol { sig: "harness".into(), msg: format!("{}: the plain twin recorded spans: {:?}", who, plain_ours.iter().map(|r| r.name.to_string()).collect::<Vec<_>>()) });
     }
